@@ -438,10 +438,14 @@ class MatrixCalculusMethods(object):
             B = A
             n = 0
             while 1:
+                B0 = B
                 B = ctx.sqrtm(B)
                 n += 1
                 if ctx.mnorm(B-I, 'inf') < 0.125:
                     break
+                if not ctx.mnorm(B-B0, 'inf'):
+                    # repeated square roots do not approach the identity (zero matrix)
+                    raise ZeroDivisionError("matrix is numerically singular")
             T = X = B-I
             L = X*0
             k = 1
